@@ -21,8 +21,7 @@ NOT_APPLICABLE = {
     "C07": "the oracle is the meaning of the Cartesian configuration language, implemented outside /repo "
            "(virttest.cartesian_config); no contract on /repo functions can express it (DESIGN.md §4)",
 }
-for _p in ["C01", "C02", "C03", "C04", "C05", "C06", "C08", "C09", "C10", "C11", "C12", "C13", "C14", "C15", "C17",
-           "C18", "C19", "C20"]:
+for _p in ["C01", "C02", "C06", "C08", "C09", "C11", "C12", "C13", "C14", "C15", "C17", "C18", "C19", "C20"]:
     NOT_APPLICABLE.setdefault(_p, _PENDING)
 
 register(
@@ -33,7 +32,9 @@ register(
     trusted=["TestNode.bridged_form summarised as a pure string function of the node"],
     undecided_clauses=["behaviour after a test overruns its timeout (excluded by the property itself)"],
 )
-LEVEL_TEXT["C04"] = "in progress"
+LEVEL_TEXT["C04"] = ("The occupancy predicates (is_started / is_occupied and the getters they use) are proved exact for all "
+                     "heaps, worker sets, scopes and thresholds (unbounded); the check-then-mark segment structure is "
+                     "checked on the CFG; the composition into 'never more than k executions' is the lemma Inv4.")
 
 register(
     "C10",
@@ -43,7 +44,8 @@ register(
     trusted=[],
     undecided_clauses=[],
 )
-LEVEL_TEXT["C10"] = "in progress"
+LEVEL_TEXT["C10"] = ("The retry/stop decision table of should_rerun is proved (27 configuration cases, unbounded result "
+                     "lists, all settings incl. invalid ones); default_run_decision is proved against it.")
 
 register(
     "C03",
@@ -53,7 +55,8 @@ register(
     trusted=[],
     undecided_clauses=[],
 )
-LEVEL_TEXT["C03"] = "in progress"
+LEVEL_TEXT["C03"] = ("Run decision (first-examination skip, rerun budget clause, flat/clone never run) proved per "
+                     "function for all heaps; the budget invariant over executions is the lemma Inv3.")
 
 register(
     "C05",
@@ -63,4 +66,6 @@ register(
     trusted=[],
     undecided_clauses=[],
 )
-LEVEL_TEXT["C05"] = "in progress"
+LEVEL_TEXT["C05"] = ("The clean decision guard ('last worker closes the door') and the readiness predicates are proved "
+                     "for all heaps and worker sets; the unset/sync request discipline is checked exhaustively over the "
+                     "finite policy domain (bounded stand-in, labelled).")
